@@ -37,6 +37,13 @@ ERRNOS = {
     "ENOTDIR": _errno.ENOTDIR,
 }
 
+_TRUE = {
+    "listdir": os.listdir, "scandir": os.scandir, "stat": os.stat, "lstat": os.lstat, "access": os.access, "remove": os.remove,
+    "mkdir": os.mkdir, "open": builtins.open, "datetime": _datetime_mod.datetime, "date": _datetime_mod.date, "Popen": _subprocess_mod.Popen,
+    "time": _time_mod.time, "localtime": _time_mod.localtime, "gmtime": _time_mod.gmtime, "strftime": _time_mod.strftime,
+    "which": shutil.which, "os_write": os.write, "isatty": os.isatty, "fsync": os.fsync, "getpid": os.getpid,
+}
+
 DEFAULT_STEP_BUDGET = 2_000_000
 DEFAULT_EVENT_CAP = 100_000
 
@@ -150,6 +157,7 @@ class SimRawStdout(io.RawIOBase):
         self.calls += 1
         data = bytes(b)
         sim = self.sim
+        sim.syscall()
         if self.dead:
             sim.deliver_write_error(self.dead, len(self.accepted), repeat=True)
             raise _oserror(self.dead)
@@ -441,55 +449,123 @@ class _FakePopen:
         return False
 
 
+class _Inode:
+    """One file created or rewritten by the tool.  Like a real inode it is shared by every handle
+    that has it open, and it survives a rename."""
+
+    __slots__ = ("data", "mtime")
+
+    def __init__(self, data=b""):
+        self.data = bytearray(data)
+        self.mtime = 0
+
+
 class Overlay:
     """Files the tool itself creates, modifies or deletes.  Nothing the tool writes ever reaches
     the real file system; within one *session* (a sequence of invocations on the same simulated
-    machine) what one invocation wrote is what the next one finds."""
+    machine, or two invocations overlapping in time) what one invocation wrote is what the other
+    finds."""
 
     def __init__(self):
-        self.files = {}  # absolute path -> bytes
-        self.mtime = {}  # absolute path -> (seconds since epoch, as int)
+        self.inodes = {}  # absolute path -> _Inode
         self.removed = set()
         self.dirs = set()
         self.tick = 0
 
-    def stamp(self, ap):
+    @property
+    def files(self):
+        return {p: bytes(i.data) for p, i in self.inodes.items()}
+
+    def stamp(self, inode):
         self.tick += 1
-        self.mtime[ap] = 1_900_000_000 + self.tick
+        inode.mtime = 1_900_000_000 + self.tick
+
+    def snapshot(self):
+        return ({p: bytes(i.data) for p, i in self.inodes.items()}, {p: i.mtime for p, i in self.inodes.items()}, set(self.removed), set(self.dirs))
+
+    def restore(self, snap):
+        files, mtimes, removed, dirs = snap
+        self.inodes = {}
+        for p, b in files.items():
+            n = _Inode(b)
+            n.mtime = mtimes.get(p, 0)
+            self.inodes[p] = n
+        self.removed = set(removed)
+        self.dirs = set(dirs)
 
     def digest(self):
         h = hashlib.sha256()
-        for k in sorted(self.files):
+        for k in sorted(self.inodes):
             h.update(k.encode())
-            h.update(hashlib.sha256(self.files[k]).digest())
+            h.update(hashlib.sha256(bytes(self.inodes[k].data)).digest())
         for k in sorted(self.removed):
             h.update(b"-" + k.encode())
         return h.hexdigest()[:16]
 
 
-class _OverlayWriter(io.BytesIO):
-    def __init__(self, overlay, ap, initial=b"", append=False):
+class _OverlayRaw(io.RawIOBase):
+    """The 'file descriptor' of an overlay file: unbuffered reads and writes on the shared inode.
+    CPython's real BufferedReader / BufferedWriter / BufferedRandom / TextIOWrapper sit on top of
+    it, so what is in a Python-level buffer and what has reached the 'disk' are told apart exactly
+    as for a real file.  Every read and write is a simulated system call (a point at which another
+    process may run)."""
+
+    def __init__(self, sim, inode, readable, writable, append):
         super().__init__()
-        self._ov = overlay
-        self._ap = ap
-        self._initial_len = len(initial) if append else 0
-        self._flushed = 0
-        if initial:
-            self.write(initial)
-            if not append:
-                self.seek(0)
+        self._sim = sim
+        self._inode = inode
+        self._r = readable
+        self._w = writable
+        self._append = append
+        self._pos = 0
 
-    def flush(self):
-        if not self.closed:
-            self._flushed = len(self.getvalue())  # an explicit flush makes everything so far durable
-        return super().flush()
+    def readable(self):
+        return self._r
 
-    def close(self):
-        if not self.closed:
-            self._ov.files[self._ap] = self.getvalue()
-            self._ov.removed.discard(self._ap)
-            self._ov.stamp(self._ap)
-        super().close()
+    def writable(self):
+        return self._w
+
+    def seekable(self):
+        return True
+
+    def readinto(self, b):
+        self._sim.syscall()
+        d = self._inode.data
+        n = max(0, min(len(b), len(d) - self._pos))
+        b[:n] = d[self._pos:self._pos + n]
+        self._pos += n
+        return n
+
+    def write(self, b):
+        self._sim.syscall()
+        data = bytes(b)
+        d = self._inode.data
+        if self._append:
+            self._pos = len(d)
+        if self._pos > len(d):
+            d.extend(b"\0" * (self._pos - len(d)))
+        d[self._pos:self._pos + len(data)] = data
+        self._pos += len(data)
+        self._sim.overlay.stamp(self._inode)
+        return len(data)
+
+    def seek(self, off, whence=0):
+        if whence == 0:
+            self._pos = off
+        elif whence == 1:
+            self._pos += off
+        else:
+            self._pos = len(self._inode.data) + off
+        self._pos = max(0, self._pos)
+        return self._pos
+
+    def tell(self):
+        return self._pos
+
+    def truncate(self, size=None):
+        size = self._pos if size is None else size
+        del self._inode.data[size:]
+        return size
 
 
 class _SimStat:
@@ -532,6 +608,10 @@ class Sim:
         self.repo_writes = []
         self.lines_hit = set()
         self.open_writers = []
+        self.yields = 0
+        self.pause_at = None
+        self.parked = None
+        self.resume = None
         self.overlay = overlay if overlay is not None else Overlay()
         self.access_count = {}
         faults = plan.get("faults") or []
@@ -551,8 +631,16 @@ class Sim:
         self.next_step_fault = None
         self.arm_step_faults()
 
+    # -- simulated system calls: the points at which another process may be scheduled -----------
+    def syscall(self):
+        self.yields += 1
+        if self.pause_at is not None and self.yields == self.pause_at and self.parked is not None:
+            self.parked.set()
+            self.resume.wait()
+
     # -- log -----------------------------------------------------------------------------------
     def log(self, op, **kw):
+        self.syscall()
         self.seq += 1
         if self.seq > self.event_cap:
             raise EventBudgetExceeded()
@@ -646,10 +734,10 @@ class Sim:
         if ap in ov.removed:
             self.log("stat", file=rel, removed_by_tool=True)
             raise _oserror("ENOENT", os.fspath(path))
-        if ap in ov.files:
+        if ap in ov.inodes:
             self.log("stat", file=rel, overlay=True)
-            m = ov.mtime.get(ap, 0)
-            return _SimStat(self.real_stat(self.tool), st_size=len(ov.files[ap]), st_mtime=float(m), st_mtime_ns=m * 10**9, st_ctime=float(m), st_ctime_ns=m * 10**9, st_mode=0o100644)
+            m = ov.inodes[ap].mtime
+            return _SimStat(self.real_stat(self.tool), st_size=len(ov.inodes[ap].data), st_mtime=float(m), st_mtime_ns=m * 10**9, st_ctime=float(m), st_ctime_ns=m * 10**9, st_mode=0o100644)
         if ap in ov.dirs:
             return self.real_stat(self.repo)
         return None
@@ -667,7 +755,7 @@ class Sim:
         rel = self.relproj(path)
         if rel is None or rel == ".":
             ap = self.abspath(path)
-            if ap in self.overlay.files or ap in self.overlay.removed or ap in self.overlay.dirs:
+            if ap in self.overlay.inodes or ap in self.overlay.removed or ap in self.overlay.dirs:
                 return self.overlay_stat(path, ap)
             return self.real_stat(path, *a, **kw)
         if self.stray(rel):
@@ -783,7 +871,7 @@ class Sim:
     def with_overlay_entries(self, path, names):
         ap = self.abspath(path)
         ov = self.overlay
-        extra = [os.path.basename(f) for f in list(ov.files) + list(ov.dirs) if os.path.dirname(f) == ap]
+        extra = [os.path.basename(f) for f in list(ov.inodes) + list(ov.dirs) if os.path.dirname(f) == ap]
         gone = {os.path.basename(f) for f in ov.removed if os.path.dirname(f) == ap}
         return sorted((set(names) | set(extra)) - gone)
 
@@ -818,13 +906,10 @@ class Sim:
         if ap in ov.removed:
             self.log("open", file=rel or "<outside the tree>", removed_by_tool=True)
             raise _oserror("ENOENT", os.fspath(file))
-        if ap in ov.files:
+        if ap in ov.inodes:
             self.log("open", file=rel or "<outside the tree>", overlay=True)
             self.probe("read_own_file")
-            if "b" in mode:
-                return io.BytesIO(ov.files[ap])
-            enc = kw.get("encoding") or (a[1] if len(a) > 1 else None) or "utf-8"
-            return io.TextIOWrapper(io.BytesIO(ov.files[ap]), encoding=enc, errors=kw.get("errors"), newline=kw.get("newline"))
+            return self.wrap_overlay(_OverlayRaw(self, ov.inodes[ap], True, False, False), mode, a, kw)
         if rel is None:
             return self.real_open(file, mode, *a, **kw)
         if self.stray(rel):
@@ -878,7 +963,7 @@ class Sim:
     def exists_anywhere(self, ap):
         if ap in self.overlay.removed:
             return False
-        if ap in self.overlay.files or ap in self.overlay.dirs:
+        if ap in self.overlay.inodes or ap in self.overlay.dirs:
             return True
         try:
             self.real_lstat(ap)
@@ -901,37 +986,56 @@ class Sim:
         exists = self.exists_anywhere(ap)
         if "x" in mode and exists:
             raise OSError(_errno.EEXIST, os.strerror(_errno.EEXIST), os.fspath(file))
-        initial = b""
-        if ("a" in mode or "r" in mode) and exists:
-            if ap in ov.files:
-                initial = ov.files[ap]
-            else:
+        if "r" in mode and not exists:
+            raise _oserror("ENOENT", os.fspath(file))
+        inode = ov.inodes.get(ap)
+        if inode is None:
+            initial = b""
+            if exists and ("a" in mode or "r" in mode):
                 with self.real_open(ap, "rb") as f:
                     initial = f.read()
-        elif "r" in mode and not exists:
-            raise _oserror("ENOENT", os.fspath(file))
-        w = _OverlayWriter(ov, ap, initial, append=("a" in mode))
-        self.open_writers.append(w)
+            inode = _Inode(initial)
+            ov.inodes[ap] = inode
+            ov.stamp(inode)
+        ov.removed.discard(ap)
+        if "w" in mode:
+            del inode.data[:]  # O_TRUNC acts on the inode: every other open handle sees it too
+            ov.stamp(inode)
+        raw = _OverlayRaw(self, inode, "r" in mode or "+" in mode, True, "a" in mode)
+        f = self.wrap_overlay(raw, mode, a, kw)
+        self.open_writers.append(f)
+        return f
+
+    def wrap_overlay(self, raw, mode, a, kw):
+        """CPython's own buffered / text layers over the simulated descriptor."""
+        buffering = kw.get("buffering", a[0] if a else -1)
+        if "b" in mode and buffering == 0:
+            return raw
+        if raw.readable() and raw.writable():
+            buf = io.BufferedRandom(raw)
+        elif raw.writable():
+            buf = io.BufferedWriter(raw)
+        else:
+            buf = io.BufferedReader(raw)
         if "b" in mode:
-            return w
+            return buf
         enc = kw.get("encoding") or (a[1] if len(a) > 1 else None) or "utf-8"
-        return io.TextIOWrapper(w, encoding=enc, errors=kw.get("errors"), newline=kw.get("newline"), write_through=True)
+        return io.TextIOWrapper(buf, encoding=enc, errors=kw.get("errors"), newline=kw.get("newline"), line_buffering=(buffering == 1))
 
     def sim_replace(self, src, dst, *a, **kw):
         s_ap, d_ap = self.abspath(src), self.abspath(dst)
         ov = self.overlay
         self.log("rename", src=self.relproj(src) or "<outside the tree>", dst=self.relproj(dst) or "<outside the tree>")
-        if s_ap in ov.files:
-            ov.files[d_ap] = ov.files.pop(s_ap)
-            ov.mtime[d_ap] = ov.mtime.pop(s_ap, 0)
+        if s_ap in ov.inodes:
+            ov.inodes[d_ap] = ov.inodes.pop(s_ap)  # the inode moves; open handles keep it
             ov.removed.discard(d_ap)
             return None
         if not self.exists_anywhere(s_ap):
             raise _oserror("ENOENT", os.fspath(src))
         # a real file (e.g. a temporary file made with os.open): its content moves into the overlay
         with self.real_open(s_ap, "rb") as f:
-            ov.files[d_ap] = f.read()
-        ov.stamp(d_ap)
+            ov.inodes[d_ap] = _Inode(f.read())
+        ov.stamp(ov.inodes[d_ap])
         ov.removed.discard(d_ap)
         if self.relproj(src) is None:
             try:
@@ -946,8 +1050,8 @@ class Sim:
         ap = self.abspath(path)
         ov = self.overlay
         self.log("remove", file=self.relproj(path) or "<outside the tree>")
-        if ap in ov.files:
-            del ov.files[ap]
+        if ap in ov.inodes:
+            del ov.inodes[ap]
             return None
         if not self.exists_anywhere(ap):
             raise _oserror("ENOENT", os.fspath(path))
@@ -1010,15 +1114,11 @@ class Sim:
                 # (CPython's file buffer; the unflushed tail dies with the process).  Whatever the
                 # tool does while the exception unwinds (finally blocks, context managers) would
                 # not have happened, so the overlay is put back to this snapshot afterwards.
-                ov = self.overlay
-                snap = dict(ov.files)
-                for w in self.open_writers:
-                    if not w.closed:
-                        v = w.getvalue()
-                        new = len(v) - w._initial_len
-                        snap[w._ap] = v[: max(w._flushed, w._initial_len + (new // 8192) * 8192)]
-                        self.probe("torn_write_of_tool_file")
-                self.kill_snapshot = (snap, set(ov.removed), set(ov.dirs), dict(ov.mtime))
+                # Python-level buffers of files the tool has open have *not* reached the inode and
+                # die with the process; everything that has, stays.
+                self.kill_snapshot = self.overlay.snapshot()
+                if any(not w.closed for w in self.open_writers):
+                    self.probe("torn_write_of_tool_file")
                 exc = SimKilled
             else:
                 exc = KeyboardInterrupt if f["op"] == "interrupt" else MemoryError
@@ -1061,22 +1161,25 @@ class Sim:
             "isatty": os.isatty,
             "fsync": os.fsync,
         }
-        self.real_listdir = os.listdir
-        self.real_scandir = os.scandir
-        self.real_stat = os.stat
-        self.real_lstat = os.lstat
-        self.real_access = os.access
-        self.real_remove = os.remove
-        self.real_mkdir = os.mkdir
-        self.real_open = builtins.open
-        self.real_datetime = _datetime_mod.datetime
-        self.real_popen = _subprocess_mod.Popen
+        # the *true* operating-system functions, captured when this module was imported: a second
+        # simulated process started while another one is parked must not mistake the first one's
+        # interposed functions for the real thing
+        self.real_listdir = _TRUE["listdir"]
+        self.real_scandir = _TRUE["scandir"]
+        self.real_stat = _TRUE["stat"]
+        self.real_lstat = _TRUE["lstat"]
+        self.real_access = _TRUE["access"]
+        self.real_remove = _TRUE["remove"]
+        self.real_mkdir = _TRUE["mkdir"]
+        self.real_open = _TRUE["open"]
+        self.real_datetime = _TRUE["datetime"]
+        self.real_popen = _TRUE["Popen"]
         self.cwd = self.repo
         self.tool_filename = _tree.tool_path()
 
         sim = self
 
-        class SimDateTime(saved["datetime"]):
+        class SimDateTime(_TRUE["datetime"]):
             @classmethod
             def now(cls, tz=None):
                 t = sim.now()
@@ -1090,7 +1193,7 @@ class Sim:
             def today(cls):
                 return sim.now()
 
-        class SimDate(saved["date"]):
+        class SimDate(_TRUE["date"]):
             @classmethod
             def today(cls):
                 return sim.now().date()
@@ -1143,13 +1246,13 @@ class Sim:
             _time_mod.time = lambda: (sim.now() - epoch).total_seconds()
 
             def sim_localtime(secs=None):
-                return saved["localtime"](secs) if secs is not None else sim.now().timetuple()
+                return _TRUE["localtime"](secs) if secs is not None else sim.now().timetuple()
 
             def sim_gmtime(secs=None):
-                return saved["gmtime"](secs) if secs is not None else sim.now().timetuple()
+                return _TRUE["gmtime"](secs) if secs is not None else sim.now().timetuple()
 
             def sim_strftime(fmt, t=None):
-                return saved["strftime"](fmt, t if t is not None else sim.now().timetuple())
+                return _TRUE["strftime"](fmt, t if t is not None else sim.now().timetuple())
 
             _time_mod.localtime = sim_localtime
             _time_mod.gmtime = sim_gmtime
@@ -1160,7 +1263,7 @@ class Sim:
             def sim_os_write(fd, data):
                 if fd == 1:
                     return raw.write(data)
-                return saved["os_write"](fd, data)
+                return _TRUE["os_write"](fd, data)
 
             os.write = sim_os_write
 
@@ -1169,12 +1272,12 @@ class Sim:
                 if os.path.basename(str(cmd)) == "git" and env.get("git") == "enoent":
                     sim.log("which", cmd=str(cmd), found=False)
                     return None
-                return saved["which"](cmd, *a, **kw)
+                return _TRUE["which"](cmd, *a, **kw)
 
             shutil.which = sim_which
             os.getpid = lambda: 4242  # process identity is not something a result may depend on
-            os.isatty = lambda fd: (mode == "line") if fd == 1 else saved["isatty"](fd)
-            os.fsync = lambda fd: None if fd == 1 else saved["fsync"](fd)
+            os.isatty = lambda fd: (mode == "line") if fd == 1 else _TRUE["isatty"](fd)
+            os.fsync = lambda fd: None if fd == 1 else _TRUE["fsync"](fd)
             sys.settrace(self.tracer)
             try:
                 runpy.run_path(self.tool_filename, run_name="__main__")
@@ -1251,14 +1354,13 @@ class Sim:
         # through an uncaught exception or SIGINT) closes and flushes them.  A killed process does
         # not: the overlay goes back to what was on "disk" at the instant of the kill.
         for w in self.open_writers:
-            if not w.closed:
-                try:
-                    w.close()
-                except Exception:
-                    pass
+            try:
+                if not w.closed:
+                    w.close()  # what interpreter shutdown does: flush and close
+            except Exception:
+                pass
         if self.kill_snapshot is not None:
-            ov = self.overlay
-            ov.files, ov.removed, ov.dirs, ov.mtime = self.kill_snapshot
+            self.overlay.restore(self.kill_snapshot)
             status = 137  # whatever the unwinding made of it, the process was killed
         data = bytes(raw.accepted)
         self.log("exit", status=status, hang=hang, out_len=len(data), raw_writes=raw.calls)
@@ -1289,8 +1391,9 @@ class Sim:
             "git_calls": self.git_calls,
             "repo_writes": self.repo_writes,
             "lines_hit": sorted(self.lines_hit),
+            "yields": self.yields,
             "overlay_digest": self.overlay.digest(),
-            "overlay_files": sorted(self.relproj(f) or f for f in self.overlay.files),
+            "overlay_files": sorted(self.relproj(f) or f for f in self.overlay.inodes),
             "probes": self.probes,
             "trace_hash": h.hexdigest(),
         }
@@ -1368,3 +1471,46 @@ def executable_lines(path):
             if hasattr(k, "co_lines"):
                 todo.append(k)
     return lines
+
+
+def run_interleaved(inv_a, inv_b, permille, step_budget=DEFAULT_STEP_BUDGET, event_cap=DEFAULT_EVENT_CAP):
+    """Two generator processes overlapping in time on one simulated machine, with one preemption:
+    A runs until its k-th simulated system call (k = permille of the calls a solo run of A makes),
+    is descheduled there, B runs from start to finish, then A continues.  The two share the
+    overlay (whatever either writes is visible to the other, through shared inodes, as on a real
+    disk).  A runs in its own thread and is blocked while B runs, so the schedule is exact."""
+    import threading as _th
+
+    solo, _ = Sim(dict(inv_a), step_budget=step_budget, event_cap=event_cap).run()
+    total = max(1, solo["yields"])
+    k = max(1, min(total, (total * permille) // 1000))
+    overlay = Overlay()
+    sim_a = Sim(inv_a, overlay=overlay, step_budget=step_budget, event_cap=event_cap)
+    sim_a.pause_at = k
+    sim_a.parked = _th.Event()
+    sim_a.resume = _th.Event()
+    box = {}
+
+    def run_a():
+        try:
+            box["out"] = sim_a.run()
+        except BaseException as e:  # pragma: no cover - simulator bug
+            box["error"] = e
+        finally:
+            sim_a.parked.set()
+
+    t = _th.Thread(target=run_a, daemon=True)
+    t.start()
+    sim_a.parked.wait()
+    reached = t.is_alive()
+    sim_b = Sim(inv_b, overlay=overlay, step_budget=step_budget, event_cap=event_cap)
+    out_b = sim_b.run()
+    sim_a.resume.set()
+    t.join()
+    if "error" in box:
+        raise box["error"]
+    res_a, data_a = box["out"]
+    res_a["preempted_at"] = k
+    res_a["preempted_of"] = total
+    res_a["preemption_reached"] = reached
+    return (res_a, data_a), out_b
